@@ -165,8 +165,8 @@ Definition set_val_real (f : fmt) (r : rmode) (o : omode) (raw : bool) (a : arr)
         w_inacc := existsb e_inacc rs |})).
 
 (* set_val, complex path (objects.py, second branch of set_val): the real and the imaginary
-   parts are float64 arrays that go SEPARATELY through scale, _round, _overflow_action (each
-   raising the flags on its own) and astype; the codes are rebuilt as a complex128 array
+   parts are float64 arrays that go through scale and _round separately and through
+   _overflow_action together (one report per write), then astype; the codes are rebuilt as a complex128 array
    (exact below 2^53).  The Python-object variant (real part beyond 2^64, or 64-bit words)
    is not modelled. *)
 Record cwres := { cw_re : list Z; cw_im : list Z; cw_ovf : bool; cw_unf : bool; cw_inacc : bool }.
